@@ -361,6 +361,69 @@ def _conj(c):
     return [c]
 
 
+def _extend_over_match(ts, x):
+    """ts.extend(match s { P => quote!(p), .. })  is  match s { P => ts.extend(quote!(p)), .. }"""
+    if x[0] == "match" and all(g is None and b[0] == "tpl" for _p, g, b in x[2]):
+        return ("match", x[1], [(p, g, ("call", "Extend::extend", [ts, b])) for p, g, b in x[2]])
+    return ("call", "Extend::extend", [ts, x])
+
+
+def _tpl_splice(text, slots, k, sub):
+    """the template (text, slots) with the whole-value slot #k replaced by the tokens of the template `sub`"""
+    base = len(slots)
+    toks = []
+    for tok in text.split(" "):
+        if tok == "#%d" % k:
+            for st in sub[2].split(" "):
+                m = re.fullmatch(r"#(\d+)", st)
+                toks.append("#%d" % (base + int(m.group(1))) if m else st)
+        else:
+            toks.append(tok)
+    new_slots = list(slots) + list(sub[3])
+    # drop the spliced slot and renumber
+    order = [i for i in range(len(new_slots)) if i != k]
+    ren = {old: new for new, old in enumerate(order)}
+    out = []
+    for tok in toks:
+        m = re.fullmatch(r"#(\d+)", tok)
+        out.append("#%d" % ren[int(m.group(1))] if m else tok)
+    return " ".join(" ".join(out).split()), [new_slots[i] for i in order]
+
+
+def _tpl_over_match(t):
+    """quote!( a #x b ) with x = match s { P => quote!(p), Q => quote!(q) } (as a whole value, not in a repetition) is
+    match s { P => quote!(a p b), Q => quote!(a q b) }: the pieces chosen by one scrutinee are chosen once, around the template"""
+    text, slots = t[2], t[3]
+    whole = set(re.findall(r"(?<![#(] )#(\d+)", " " + text))
+    in_rep = set()
+    depth = 0
+    for tok in text.split(" "):
+        if tok == "#(":
+            depth += 1
+        elif depth and (tok.startswith(")") and tok.endswith("*")):
+            depth -= 1
+        elif depth:
+            m = re.fullmatch(r"#(\d+)", tok)
+            if m:
+                in_rep.add(m.group(1))
+    cands = [k for k, sl in enumerate(slots) if str(k) not in in_rep and sl[0] == "match" and all(g is None and b[0] == "tpl" and b[1] == "quote" for _p, g, b in sl[2])]
+    if not cands:
+        return t
+    scr = slots[cands[0]][1]
+    pats = [p for p, _g, _b in slots[cands[0]][2]]
+    ks = [k for k in cands if slots[k][1] == scr and [p for p, _g, _b in slots[k][2]] == pats]
+    if len(ks) < 2:
+        return t              # one piece chosen by a match stays a slot (the field list of a struct); several pieces chosen together are one choice
+    arms = []
+    for ai, pat in enumerate(pats):
+        tx, sl = text, list(slots)
+        # splice from the highest index down so that the remaining indices stay valid
+        for k in sorted(ks, reverse=True):
+            tx, sl = _tpl_splice(tx, sl, k, sl[k][2][ai][2])
+        arms.append((pat, None, ("tpl", t[1], tx, sl)))
+    return ("match", scr, arms)
+
+
 _OPEN_TOK, _CLOSE_TOK = ("#(", "(", "{", "["), (")", "}", "]")
 
 
@@ -3021,7 +3084,7 @@ class Norm:
                 return ("cast", peel_ty(e.get("ty", "")), args[0])
             if name == "ToTokens::to_tokens" and len(args) == 2:
                 x = args[0] if args[0][0] == "tpl" and args[0][1] == "quote" else ("tpl", "quote", "#0", [args[0]])
-                return ("call", "Extend::extend", [args[1], x])     # x.to_tokens(ts)  ==  ts.extend(quote!(#x))
+                return _extend_over_match(args[1], x)     # x.to_tokens(ts)  ==  ts.extend(quote!(#x))
             if name in ("ToTokens::to_token_stream", "ToTokens::into_token_stream") and len(args) == 1:
                 return ("tpl", "quote", "#0", [args[0]])       # ToTokens::to_token_stream(x)  ==  quote!(#x)
             if name == "FromIterator::from_iter" and len(args) == 1:
@@ -3065,7 +3128,9 @@ class Norm:
             args = [self._t(a) for a in e["args"]]
             if name == "ToTokens::to_tokens" and len(args) == 1:
                 x = recv if recv[0] == "tpl" and recv[1] == "quote" else ("tpl", "quote", "#0", [recv])
-                return ("call", "Extend::extend", [args[0], x])     # x.to_tokens(ts)  ==  ts.extend(quote!(#x))
+                return _extend_over_match(args[0], x)     # x.to_tokens(ts)  ==  ts.extend(quote!(#x))
+            if name == "Extend::extend" and len(args) == 1 and args[0][0] == "match":
+                return _extend_over_match(recv, args[0])
             if name in ("ToTokens::to_token_stream", "ToTokens::into_token_stream") and not args:
                 return ("tpl", "quote", "#0", [recv])       # x.to_token_stream()  ==  quote!(#x)
             if name in _TO_STRING and not args and _is_string_conv(e, e["recv"]):
@@ -3375,7 +3440,7 @@ class Norm:
             return "#%d" % (len(slots) - 1)
         text = " ".join(T.render(items, interp).split())
         text, slots = _fold_rep_groups(text, slots)
-        return ("tpl", kind, text, slots)
+        return _tpl_over_match(("tpl", kind, text, slots))
 
     def _fmt(self, parts):
         out = []
@@ -3790,6 +3855,10 @@ def _mk_for(it, body):
         el = ("elem", inner_it)
         return _mk_for(base, _mk_for(inner_it, rewrite(body, lambda n: el if n == old else None)))
     old = ("elem", it)
+    if body[0] == "call" and body[1] == "Extend::extend" and len(body[2]) == 2 and body[2][1] == ("tpl", "quote", "#0", [old]) \
+            and not any(x == old for x in subterms(body[2][0])):
+        # for x in xs { x.to_tokens(ts) }  ==  ts.extend(quote!( #( #xs )* ))
+        return ("call", "Extend::extend", [body[2][0], ("tpl", "quote", "#( #0 )*", [it])])
     if it[0] == "call" and it[1] == "Iterator::collect" and len(it[2]) == 1 and it[2][0][0] != "try":
         # for x in it.collect::<Vec<_>>() { body }  ==  for x in it { body }   (the elements and their order are the same)
         base = it[2][0]
